@@ -120,8 +120,10 @@ def decode_x_object(x_object):
     return base
 
 
-def call_embed(data, optimize, quality, orientation):
-    """The real loader and RasterImage -> canonical output (same tokens as the driver)."""
+def call_embed(data, optimize, quality, orientation, earlier=None):
+    """The real loader and RasterImage -> canonical output (same tokens as the driver).
+    `earlier`: an image-orientation with which the same URL was loaded before through the same image cache
+    (as a document using one image twice does); the outcome must not depend on it."""
     from PIL import Image
     from weasyprint import DEFAULT_OPTIONS
     from weasyprint.images import RasterImage, get_image_from_uri
@@ -138,9 +140,12 @@ def call_embed(data, optimize, quality, orientation):
         def counting_save(self, *args, **kwargs):
             saves.append(kwargs.get('format'))
             return original_save(self, *args, **kwargs)
+        cache = {}
+        if earlier is not None:
+            get_image_from_uri(cache, default_url_fetcher, options, uri, orientation=earlier)
         Image.Image.save = counting_save
         try:
-            image = get_image_from_uri({}, default_url_fetcher, options, uri, orientation=orientation)
+            image = get_image_from_uri(cache, default_url_fetcher, options, uri, orientation=orientation)
         finally:
             Image.Image.save = original_save
         if image is None:
@@ -148,8 +153,7 @@ def call_embed(data, optimize, quality, orientation):
         assert isinstance(image, RasterImage)
         x_object = image.get_x_object(True, 1)
         extra = x_object.extra
-        reencoded = bool(saves)
-        assert reencoded or image.image_data.data == data
+        reencoded = bool(saves) or image.image_data.data != data
         flate = extra['Filter'] == '/FlateDecode'
         colors3 = bool(flate and extra['DecodeParms'].get('Colors') == 3)
         faithful = image.format != 'JPEG' and image.mode in ('L', 'LA', 'RGB', 'RGBA')
@@ -194,13 +198,21 @@ def case_embed(rng, adversarial=False):
     quality = rng.choice([None, None, None, 60])
     orientation = rng.choice(ORIENTATIONS)
     opened_mode, has_transparency, opened_format, app14, rotated = describe(data, orientation)
-    out = call_embed(data, optimize, quality, orientation)
+    earlier = None
+    if rng.random() < 0.3:
+        earlier = rng.choice([o for o in ORIENTATIONS if o != orientation])
+        if call_embed(data, optimize, quality, earlier).startswith('err'):
+            earlier = None              # the first use already fails: nothing reaches the cache
+    out = call_embed(data, optimize, quality, orientation, earlier)
     line = sx.line('embed', opened_mode, has_transparency, opened_format, app14, rotated, True, optimize,
                    quality is not None)
     meta = {'fn': 'RasterImage', 'source': [mode, fmt, transparency, list(size), variant],
             'orientation': orientation if isinstance(orientation, str) else list(orientation),
+            'earlier': earlier if earlier is None or isinstance(earlier, str) else list(earlier),
             'optimize': optimize, 'jpeg_quality': quality}
     tags = [f'embed:{opened_format}-{opened_mode}' + ('+t' if has_transparency else '')]
+    if earlier is not None:
+        tags.append('embed:cached-other-orientation')
     if rotated:
         tags.append('embed:rotated')
     if out.startswith('err'):
@@ -214,7 +226,9 @@ def replay_embed(meta):
     data = make_source(mode, fmt, transparency, tuple(size), variant)
     orientation = meta['orientation'] if isinstance(meta['orientation'], str) else tuple(meta['orientation'])
     opened_mode, has_transparency, opened_format, app14, rotated = describe(data, orientation)
-    out = call_embed(data, meta['optimize'], meta['jpeg_quality'], orientation)
+    earlier = meta.get('earlier')
+    earlier = tuple(earlier) if isinstance(earlier, list) else earlier
+    out = call_embed(data, meta['optimize'], meta['jpeg_quality'], orientation, earlier)
     line = sx.line('embed', opened_mode, has_transparency, opened_format, app14, rotated, True, meta['optimize'],
                    meta['jpeg_quality'] is not None)
     return line, out
@@ -233,3 +247,61 @@ def finding_unwritable_mode():
     instead of embedding the image or degrading gracefully."""
     data = make_source('CMYK', 'TIFF', False, (2, 2), 0)
     return call_embed(data, False, None, 'none').startswith('err')
+
+
+# ---------------------------------------------------------------------------------------------
+# image-orientation: computed value and the transpositions applied by rotate_pillow_image
+
+def grid_image(rows):
+    from PIL import Image
+    image = Image.new('L', (len(rows[0]), len(rows)))
+    for y, row in enumerate(rows):
+        for x, value in enumerate(row):
+            image.putpixel((x, y), value)
+    return image
+
+
+def case_orientation(rng, adversarial=False):
+    """The real `rotate_pillow_image` on a tiny greyscale image whose pixels are all different."""
+    from weasyprint.images import rotate_pillow_image
+    w, h = rng.choice([1, 2, 3]), rng.choice([1, 2, 3])
+    values = rng.sample(range(1, 250), w * h)
+    rows = [values[y * w:(y + 1) * w] for y in range(h)]
+    orientation = rng.choice(['none', 'from-image', (0, False), (0, True), (90, False), (90, True), (180, False),
+                              (180, True), (270, False), (270, True)])
+
+    def run():
+        source = grid_image(rows)
+        result = rotate_pillow_image(source, orientation)
+        grid = [[result.getpixel((x, y)) for x in range(result.width)] for y in range(result.height)]
+        text = ' '.join('(' + ' '.join(str(v) for v in row) + ')' for row in grid)
+        return f'ok {str(result is not source).lower()} {result.width} {result.height} ({text})'
+    out = docs.outcome(run)
+    kind, angle, flip = (orientation, 0, False) if isinstance(orientation, str) else ('turn', *orientation)
+    line = sx.line('orient', kind, angle, flip, rows)
+    return (line, out, {'fn': 'rotate_pillow_image', 'rows': rows, 'orientation': orientation},
+            not isinstance(orientation, str), [f'orient:{kind}:{angle}:{str(flip).lower()}'])
+
+
+def case_orientation_angle(rng, adversarial=False):
+    """The real computed-value function on `<angle>` values (degrees, away from the 45deg rounding ties)."""
+    import math
+    from weasyprint.css.computed_values import image_orientation
+    degrees = rng.choice([0, 90, 180, 270, 360, 450, -90, -180, -270, 10, 44, 46, 89, 100, 134, 136, 200, 300, 359,
+                          -10, -44, -46, -100, 720, 1000, rng.randint(-720, 720)])
+    if (degrees - 45) % 90 == 0:
+        degrees += 1
+    flip = rng.random() < 0.5
+    out = docs.outcome(lambda: str(image_orientation(None, 'image_orientation', (degrees * math.pi / 180, flip))[0]))
+    from fractions import Fraction
+    line = sx.line('orientangle', Fraction(degrees, 90))
+    return line, out, {'fn': 'computed image_orientation', 'degrees': degrees}, degrees % 360 != 0, [
+        f'orientangle:{(round(degrees / 90) % 4) * 90}']
+
+
+def finding_orientation_ccw():
+    """Known finding: `image-orientation: 90deg` turns the image to the left (Pillow ROTATE_90 is
+    counter-clockwise) where css-images-3 says to the right."""
+    from weasyprint.images import rotate_pillow_image
+    result = rotate_pillow_image(grid_image([[10, 20]]), (90, False))
+    return result.size == (1, 2) and result.getpixel((0, 0)) == 20
